@@ -52,9 +52,11 @@ def oracle_case(res, base_ast, adds, items):
         return "add() changed the configurator it was called on"
     if c.id != cfg.id:
         return f"add() changed the configurator id {cfg.id} -> {c.id}"
-    a, d = observe(c, items), observe(direct, items)
+    a, d = safe_observe(c, items), safe_observe(direct, items)      # a configurator nobody can convert raises on both sides alike
+    if ("raised" in a) != ("raised" in d):
+        return f"add-chain and direct construction differ: one raises on conversion, the other does not ({a.get('raised')} vs {d.get('raised')})"
     for k in a:
-        if a[k] != d[k]:
+        if a[k] != d.get(k):
             return f"add-chain and direct construction differ in {k}: {str(a[k])[:300]} vs {str(d[k])[:300]}"
     # the original must still answer like a fresh identical configurator AFTER the extended one was observed
     # (add() shares the rule objects with the original)
@@ -81,6 +83,9 @@ def run(res, tier, seed):
         base = g.config()
         nadd = rng.randint(1, 3)
         adds = [g.rule(force_id=rng.random() < 0.7) for _ in range(nadd)]
+        if rng.random() < 0.2:
+            # an item is added, not a rule: a bare variable (names as in the generator's pool of bare items)
+            adds.insert(rng.randrange(len(adds) + 1), {"k": "var", "id": rng.choice(["1a", "9", "10", "zz", "Base", "q7"]), "b": [0, 1]})
         if rng.random() < 0.25 and len(g.items) >= 4:
             # a defaulted rule whose non-default branch Any(rest) also occurs, untagged and with the same generated id,
             # inside a rule of the other configurator (add() shares rule objects between the two)
